@@ -256,7 +256,14 @@ pub fn uni_poly<F: PrimeField>(spec: &PolySpec, rng: &mut ChaCha20Rng) -> UniPol
 }
 
 pub fn point_fe<F: PrimeField>(id: i64) -> F {
-    // distinct ids -> distinct (with overwhelming probability) seeded random elements
+    // ids 5, 6, 7 are the algebraically special points -1, 0, 1 (roots of unity and the origin are
+    // where challenge-reuse and shift mistakes cancel); every other id is a seeded random element
+    match id {
+        5 => return -F::one(),
+        6 => return F::zero(),
+        7 => return F::one(),
+        _ => {}
+    }
     let mut rng = rng_for("point", id as u64);
     nonzero(&mut rng)
 }
@@ -360,6 +367,12 @@ pub fn ml_poly<F: PrimeField>(spec: &PolySpec, nv: usize, rng: &mut ChaCha20Rng)
 }
 
 pub fn point_vec<F: PrimeField>(id: i64, nv: usize) -> Vec<F> {
+    match id {
+        5 => return vec![-F::one(); nv],
+        6 => return vec![F::zero(); nv],
+        7 => return vec![F::one(); nv],
+        _ => {}
+    }
     let mut rng = rng_for("pointvec", id as u64);
     (0..nv).map(|_| nonzero(&mut rng)).collect()
 }
